@@ -13,7 +13,14 @@
    tests the binding NAME against "onStartup" before it looks at the type, so a schedule /
    kubernetes / ... binding that the user named "onStartup" is dispatched to __on_startup
    instead of its documented handlers (C19_reserved_name_refuted).  Everything is proved
-   for inputs outside that trigger T (recorded finding F20 in known_findings.json). *)
+   for inputs outside that trigger T (recorded finding F20 in known_findings.json).
+
+   "whose handler fails" is read in the strict mode the property text names: the theorems
+   of the second half are about handlers given by their BODIES (sequences of commands:
+   plain, pipelines, tested positions, return/exit, unset variables, subshells, called
+   functions, command substitutions) - C19_body_strict_mode ties bash's way of running a
+   body (the model's interpreter) to the Spec's reading of strict mode, the other three
+   carry the dispatch theorems over to such handlers. *)
 From Coq Require Import String.
 From Verif Require Import Common C19_Model C19_Spec C19_Proofs.
 
@@ -105,4 +112,85 @@ Proof.
   - intros k c Hn. destruct k as [|[|[|k]]]; simpl in Hn; try (destruct k; discriminate);
       inversion Hn; subst c; eexists; split; vm_compute; reflexivity.
   - repeat split; vm_compute; reflexivity.
+Qed.
+
+(* ---------- handlers given by their bodies, strict mode ---------- *)
+
+(* The model's interpreter of a handler body agrees with the Spec's strict mode: the
+   function's status is that of the first command that ends it (a failing command in an
+   ordinary position, a failing pipeline, an unset variable, return, exit) or, if none
+   does, of its last command; and the commands that start are exactly those up to and
+   including that command - nothing after it. *)
+Theorem C19_body_strict_mode : forall b,
+  snd (exec_body b) = strict_status b /\
+  top (fst (exec_body b)) = positions 0%N (length (upto_end b)) /\
+  (forall pre cm post, b = pre ++ cm :: post -> (forall x, In x pre -> ends x = false) -> ends cm = true ->
+     strict_status b = leaves cm /\ upto_end b = pre ++ [cm]) /\
+  ((forall x, In x b -> ends x = false) -> strict_status b = last (map leaves b) 0%N /\ upto_end b = b).
+Proof. exact body_strict_mode. Qed.
+Print Assumptions C19_body_strict_mode.
+
+(* hook::run over handlers given by their bodies shows exactly what the loop over their
+   strict-mode statuses shows (so every theorem above speaks about it), with one list
+   of command marks per invocation. *)
+Theorem C19_bodies_refine_statuses : forall args defined bodies cs,
+  ob_obs (runB args defined bodies cs) = run args defined (results_of_bodies bodies) cs /\
+  length (ob_steps (runB args defined bodies cs)) = length (o_trace (ob_obs (runB args defined bodies cs))).
+Proof. exact runB_run. Qed.
+Print Assumptions C19_bodies_refine_statuses.
+
+Theorem C19_strict_dispatch_meets_spec_partial : forall i,
+  in_domain (to_input i) = true -> T (to_input i) = false -> PB i (ob_obs (runB_i i)) = true.
+Proof. exact strict_meets_spec_partial. Qed.
+Print Assumptions C19_strict_dispatch_meets_spec_partial.
+
+(* Contexts 0..k-1 are served; in the body of the handler chosen for context k the
+   commands [pre] do not end it and the next one, [cm], ends it with a non-zero status
+   (e.g. Plain 1 in the middle of the body, or a pipeline with a failing component).
+   Then, whatever [post] follows in the body and whatever contexts follow: the run's
+   status is that status, exactly k+1 handlers were invoked, the last being that one,
+   and of its body exactly the commands 0..|pre| started. *)
+Theorem C19_stops_inside_handler : forall defined bodies cs k c h pre cm post,
+  ok cs ->
+  nth_error cs k = Some c ->
+  (forall j c', (j < k)%nat -> nth_error cs j = Some c' -> served defined (results_of_bodies bodies) j c') ->
+  chosen defined c = Some h ->
+  bodies h (N.of_nat k) = pre ++ cm :: post ->
+  (forall x, In x pre -> ends x = false) -> ends cm = true -> leaves cm <> 0%N ->
+  let X := dispatchB defined bodies cs in
+  snd X = leaves cm /\ snd X <> 0%N /\ length (fst (fst X)) = S k /\ length (snd (fst X)) = S k /\
+  nth_error (fst (fst X)) k = Some (h, N.of_nat k, cur_binding c) /\
+  exists ss, nth_error (snd (fst X)) k = Some ss /\ top ss = positions 0%N (S (length pre)).
+Proof. exact stops_inside_handler. Qed.
+Print Assumptions C19_stops_inside_handler.
+
+(* non-vacuity: over [ex_ctxs], the kubernetes handler succeeds for context 0 although a
+   tested command fails in it; the group handler, chosen for context 1, has a pipeline
+   with a failing component in the MIDDLE of its body, followed by succeeding commands:
+   the hypotheses of C19_stops_inside_handler hold (k = 1, pre = [Plain 0; OrTrue 1],
+   cm = Pipe [0; 3; 0], post = [Plain 0; Return 0]); the run stops with status 3 after
+   two invocations and the third context is never dispatched. *)
+Definition ex_bodies : name -> N -> body := fun h _ =>
+  if bytes_eqb h (B "__on_group::g1")
+  then [Plain 0; OrTrue 1; Pipe [0%N; 3%N; 0%N]; Plain 0; Return 0]
+  else [IfCond 2; Plain 0].
+
+Example C19_inside_hyp_met :
+  (forall j c', (j < 1)%nat -> nth_error ex_ctxs j = Some c' -> served ex_defined (results_of_bodies ex_bodies) j c') /\
+  chosen ex_defined (mkCtx (Some (B "pods")) (Some (B "Group")) None (Some (B "g1")) None None) = Some (B "__on_group::g1") /\
+  ex_bodies (B "__on_group::g1") 1%N = [Plain 0; OrTrue 1] ++ Pipe [0%N; 3%N; 0%N] :: [Plain 0; Return 0] /\
+  (forall x, In x [Plain 0; OrTrue 1] -> ends x = false) /\
+  ends (Pipe [0%N; 3%N; 0%N]) = true /\ leaves (Pipe [0%N; 3%N; 0%N]) = 3%N /\
+  dispatchB ex_defined ex_bodies ex_ctxs =
+    ([(B "__on_kubernetes::pods", 0%N, B "pods"); (B "__on_group::g1", 1%N, B "pods")],
+     [[(0, 0); (1, 0)]; [(0, 0); (1, 0); (2, 0)]]%N, 3%N) /\
+  in_domain (to_input (mkInputB [] ex_defined ex_bodies ex_ctxs)) = true /\
+  T (to_input (mkInputB [] ex_defined ex_bodies ex_ctxs)) = false.
+Proof.
+  split.
+  { intros j c' Hj Hn. destruct j as [|j]; [|lia]. simpl in Hn. inversion Hn; subst c'.
+    eexists; split; vm_compute; reflexivity. }
+  split; [vm_compute; reflexivity|]. split; [vm_compute; reflexivity|]. split.
+  { intros x [<-|[<-|[]]]; reflexivity. }
+  repeat split; vm_compute; reflexivity.
 Qed.
